@@ -20,7 +20,7 @@ MANIFEST = {
           'writeCachedDataPoints() with MAX_UPDATES_PER_SECOND and MAX_CREATES_PER_MINUTE on, shutdownModifyUpdateSpeed() '
           'injected before every backend call, same window check on the virtual call times of create() and write().',
   'note': 'States are not merged (the window oracle depends on the whole grant history), so states = histories. '
-          'Rates and capacities outside the 5 configurations and costs other than 1 token are not covered. Writer level also under six backend fault patterns; windows are computed over create()/write() call times whether or not the call succeeded. Limits written in a [cache:b] section go through the real start-up and every resulting setting is carried into the writer process.',
+          'Rates and capacities outside the 5 configurations and costs other than 1 token are not covered. Writer level also under six backend fault patterns; windows are computed over create()/write() call times whether or not the call succeeded. Limits written in a [cache:b] section go through the real start-up and every resulting setting is carried into the writer process. A shutdown rate below the regular one; the change applied through the triggers the real WriterService registers with the reactor (tags on/off).',
 }
 
 EPS = 1e-6
@@ -225,7 +225,7 @@ def writer_case(arg):
     if on_shutdown is not None:
       settings['MAX_UPDATES_PER_SECOND_ON_SHUTDOWN'] = on_shutdown
     env.apply_daemon_cache_limits(settings)
-    if spelling:
+    if spelling and not spelling.startswith('service'):
       # the same limits as the daemon's real start-up leaves them when they are written in a [cache:<instance>] section that
       # overrides more generous ones in [cache]: EVERY setting the start-up produced is carried over (also ones this harness
       # has never heard of), then the writer module builds its buckets from them as it does at import
@@ -250,10 +250,30 @@ def writer_case(arg):
     calls = {'n': 0, 'round': 0, 'create': 0, 'write': 0, 'faults': 0}
     changed_at = [None]
 
+    shutdown_triggers = None
+    if spelling and spelling.startswith('service'):
+      # the daemon's own service object registers what the reactor runs before a shutdown: start the real WriterService
+      # against a recording reactor (tags on / off) and let the "shutdown" be those registered triggers, nothing else
+      from ..writerh import ReactorDouble
+      from twisted.internet.task import Clock as TClock
+      settings['ENABLE_TAGS'] = (spelling == 'service-tags')
+      rd = ReactorDouble()
+      carbon.writer.reactor = rd
+      svc = carbon.writer.WriterService()
+      for task in (svc.storage_reload_task, svc.aggregation_reload_task):
+        task.clock = TClock()
+      svc.startService()
+      shutdown_triggers = [(f, a, k) for ph, ev, f, a, k in getattr(rd, 'triggers', []) if (ph, ev) == ('before', 'shutdown')]
+      svc.stopService()
+
     def fault(op, metric):
       if calls['n'] == inject_at:
         changed_at[0] = clock.now
-        carbon.writer.shutdownModifyUpdateSpeed()
+        if shutdown_triggers is not None:
+          for f, a, k in shutdown_triggers:
+            f(*a, **k)
+        else:
+          carbon.writer.shutdownModifyUpdateSpeed()
       calls['n'] += 1
       if failing and op == failing.split(':')[0]:
         calls[op] += 1
@@ -285,7 +305,7 @@ def writer_case(arg):
         v = window_violation(times[:j], limits)
         if v:
           bad.append(('writer-rate-exceeded:' + op, 'backend %s calls: %s (shutdown change injected before backend call %r, '
-                      'MAX_UPDATES_PER_SECOND_ON_SHUTDOWN=%r, failing backend calls: %r)' % (op, v, inject_at, on_shutdown, failing),
+                      'MAX_UPDATES_PER_SECOND_ON_SHUTDOWN=%r, failing backend calls: %r, configuration/trigger path: %s)' % (op, v, inject_at, on_shutdown, failing, spelling or 'direct'),
                       {'inject_at': inject_at, 'on_shutdown': on_shutdown, 'failing': failing, 'spelling': spelling}))
           break
     nw = sum(1 for e in db.log if e[0] == 'write')
@@ -319,6 +339,8 @@ def run(ctx):
   wtasks += [(i, s, None, sp) for sp in ('instance-over-larger', 'instance-only') for s in (None, 10, 1) for i in (None, 2)]
   # a shutdown rate BELOW the regular one (the operator wants a gentle shutdown): it is a limit like any other
   wtasks += [(i, 1, None) for i in (0, 3, 7, 12)]
+  # the change as the reactor would trigger it: whatever the real WriterService registered 'before shutdown' (tags on / off)
+  wtasks += [(i, s, None, sp) for sp in ('service-tags', 'service-notags') for s in (1, 10) for i in (0, 3)]
   wres = core.pmap(writer_case, wtasks, fresh=True)
   wcalls = wfaults = 0
   for st, bad in wres:
